@@ -48,18 +48,25 @@ Record world := {
   w_zf : nat -> bool;
   w_glob : string -> nat -> Z;
   w_xmm : nat -> nat -> Z * Z;      (* what the n-th hook body (and the libc code it runs) leaves in xmm<i> *)
+  w_up : nat -> nat -> nat -> Z;    (* ... and in word j >= 2 (bits 64j..) of vector register i *)
   w_ctx : nat -> Z -> Z;            (* garbage in the wrapper's context buffer before the save *)
   w_level : nat                     (* what mcount_arch_check_avx() finds: 0 xmm, 1 ymm state, >= 2 zmm state *)
 }.
 
-Definition c_call_xmm (W : world) (f : string) (n : nat) (x : nat -> Z * Z) : nat -> Z * Z :=
-  if xmm_leaf f then x
-  else if xmm_wrapped f then arch_roundtrip128 (Nat.min (w_level W) 2) x (w_ctx W n) (w_xmm W n)
-  else w_xmm W n.
+(* a vector register from its low 128 bits (a pair) and its words 2..7 *)
+Definition join (x : nat -> Z * Z) (u : nat -> nat -> Z) : vfile :=
+  fun r i => match i with O => fst (x r) | S O => snd (x r) | _ => u r i end.
+Definition c_call_vec (W : world) (f : string) (n : nat) (x : nat -> Z * Z) (u : nat -> nat -> Z) : vfile :=
+  if xmm_leaf f then join x u
+  else if xmm_wrapped f then arch_roundtrip_now (Nat.min (w_level W) 2) (join x u) (w_ctx W n) (join (w_xmm W n) (w_up W n))
+  else join (w_xmm W n) (w_up W n).
+Definition c_call_xmm (W : world) (f : string) (n : nat) (x : nat -> Z * Z) (u : nat -> nat -> Z) : nat -> Z * Z :=
+  fun r => (c_call_vec W f n x u r 0%nat, c_call_vec W f n x u r 1%nat).
 
 Record cstate := {
   cr : reg -> Z;              (* general registers (words as integers; pointer arithmetic exact) *)
   cx : nat -> Z * Z;          (* xmm<i> as (low, high) 64-bit halves *)
+  cu : nat -> nat -> Z;       (* words 2..7 of vector register i (bits 128-511): no stub instruction touches them *)
   cm : Z -> Z;                (* 8-byte cell at a byte address; only 8-aligned accesses are defined *)
   czf : bool;
   cn : nat;                   (* number of hook calls made so far *)
@@ -69,25 +76,25 @@ Record cstate := {
 }.
 
 Definition c_setr (s : cstate) (r : reg) (v : Z) : cstate :=
-  {| cr := fun x => if reg_eqb x r then v else cr s x; cx := cx s; cm := cm s; czf := czf s; cn := cn s;
+  {| cr := fun x => if reg_eqb x r then v else cr s x; cx := cx s; cu := cu s; cm := cm s; czf := czf s; cn := cn s;
      cskip := cskip s; cend := cend s; cfault := cfault s |}.
 Definition c_setx (s : cstate) (i : nat) (v : Z * Z) : cstate :=
-  {| cr := cr s; cx := fun x => if Nat.eqb x i then v else cx s x; cm := cm s; czf := czf s; cn := cn s;
+  {| cr := cr s; cx := fun x => if Nat.eqb x i then v else cx s x; cu := cu s; cm := cm s; czf := czf s; cn := cn s;
      cskip := cskip s; cend := cend s; cfault := cfault s |}.
 Definition c_setm (s : cstate) (a : Z) (v : Z) : cstate :=
-  {| cr := cr s; cx := cx s; cm := fun x => if x =? a then v else cm s x; czf := czf s; cn := cn s;
+  {| cr := cr s; cx := cx s; cu := cu s; cm := fun x => if x =? a then v else cm s x; czf := czf s; cn := cn s;
      cskip := cskip s; cend := cend s; cfault := cfault s |}.
 Definition c_setzf (s : cstate) (b : bool) : cstate :=
-  {| cr := cr s; cx := cx s; cm := cm s; czf := b; cn := cn s;
+  {| cr := cr s; cx := cx s; cu := cu s; cm := cm s; czf := b; cn := cn s;
      cskip := cskip s; cend := cend s; cfault := cfault s |}.
 Definition c_setskip (s : cstate) (k : option nat) : cstate :=
-  {| cr := cr s; cx := cx s; cm := cm s; czf := czf s; cn := cn s;
+  {| cr := cr s; cx := cx s; cu := cu s; cm := cm s; czf := czf s; cn := cn s;
      cskip := k; cend := cend s; cfault := cfault s |}.
 Definition c_setend (s : cstate) (t : Z) : cstate :=
-  {| cr := cr s; cx := cx s; cm := cm s; czf := czf s; cn := cn s;
+  {| cr := cr s; cx := cx s; cu := cu s; cm := cm s; czf := czf s; cn := cn s;
      cskip := cskip s; cend := Some t; cfault := cfault s |}.
 Definition c_fault (s : cstate) : cstate :=
-  {| cr := cr s; cx := cx s; cm := cm s; czf := czf s; cn := cn s;
+  {| cr := cr s; cx := cx s; cu := cu s; cm := cm s; czf := czf s; cn := cn s;
      cskip := cskip s; cend := cend s; cfault := true |}.
 
 Definition aligned8 (a : Z) : bool := a mod 8 =? 0.
@@ -100,7 +107,8 @@ Definition c_call (W : world) (f : string) (s : cstate) : cstate :=
   let p := cr s RSP in
   if p mod 16 =? 0 then
     {| cr := fun r => if callee_saved r then cr s r else w_regs W (cn s) r;
-       cx := c_call_xmm W f (cn s) (cx s);
+       cx := c_call_xmm W f (cn s) (cx s) (cu s);
+       cu := c_call_vec W f (cn s) (cx s) (cu s);
        cm := fun a => if ((a <? p) || (may_write f && (a =? cr s RDI)))%bool then w_mem W (cn s) a else cm s a;
        czf := w_zf W (cn s); cn := S (cn s); cskip := cskip s; cend := cend s; cfault := cfault s |}
   else c_fault s.
@@ -146,8 +154,8 @@ Definition cstep (W : world) (s : cstate) (i : insn) : cstate :=
 Definition cexec (W : world) (prog : list insn) (s : cstate) : cstate := fold_left (cstep W) prog s.
 
 (* a stub starts with nothing skipped, nothing ended, no fault, no call made *)
-Definition cstart (regs : reg -> Z) (xmm : nat -> Z * Z) (mem : Z -> Z) (zf : bool) : cstate :=
-  {| cr := regs; cx := xmm; cm := mem; czf := zf; cn := 0%nat; cskip := None; cend := None; cfault := false |}.
+Definition cstart (regs : reg -> Z) (xmm : nat -> Z * Z) (up : nat -> nat -> Z) (mem : Z -> Z) (zf : bool) : cstate :=
+  {| cr := regs; cx := xmm; cu := up; cm := mem; czf := zf; cn := 0%nat; cskip := None; cend := None; cfault := false |}.
 
 (* ------------------------------------------------------------------ abstract executor *)
 Inductive val :=
@@ -202,6 +210,7 @@ Record params := {
 Record astate := {
   ar : reg -> val;
   ax : nat -> val * val;
+  au : bool;                  (* the architecturally visible words 2.. of vector registers 0-7 still hold their entry values *)
   am : list (Z * val);        (* cells written since entry, newest first, keyed by offset from rsp0 *)
   ahi : option Z;             (* Some h: unlisted cells below rsp0 + h were left to a hook *)
   azf : option (val * Z);     (* Some (v,k): ZF = (v == k) *)
@@ -212,25 +221,25 @@ Record astate := {
 }.
 
 Definition a_setr (a : astate) (r : reg) (v : val) : astate :=
-  {| ar := fun x => if reg_eqb x r then v else ar a x; ax := ax a; am := am a; ahi := ahi a; azf := azf a;
+  {| ar := fun x => if reg_eqb x r then v else ar a x; ax := ax a; au := au a; am := am a; ahi := ahi a; azf := azf a;
      an := an a; askip := askip a; aend := aend a; aok := aok a |}.
 Definition a_setx (a : astate) (i : nat) (v : val * val) : astate :=
-  {| ar := ar a; ax := fun x => if Nat.eqb x i then v else ax a x; am := am a; ahi := ahi a; azf := azf a;
+  {| ar := ar a; ax := fun x => if Nat.eqb x i then v else ax a x; au := au a; am := am a; ahi := ahi a; azf := azf a;
      an := an a; askip := askip a; aend := aend a; aok := aok a |}.
 Definition a_store (a : astate) (o : Z) (v : val) : astate :=
-  {| ar := ar a; ax := ax a; am := (o, v) :: am a; ahi := ahi a; azf := azf a;
+  {| ar := ar a; ax := ax a; au := au a; am := (o, v) :: am a; ahi := ahi a; azf := azf a;
      an := an a; askip := askip a; aend := aend a; aok := aok a |}.
 Definition a_setzf (a : astate) (z : option (val * Z)) : astate :=
-  {| ar := ar a; ax := ax a; am := am a; ahi := ahi a; azf := z;
+  {| ar := ar a; ax := ax a; au := au a; am := am a; ahi := ahi a; azf := z;
      an := an a; askip := askip a; aend := aend a; aok := aok a |}.
 Definition a_setskip (a : astate) (k : option nat) : astate :=
-  {| ar := ar a; ax := ax a; am := am a; ahi := ahi a; azf := azf a;
+  {| ar := ar a; ax := ax a; au := au a; am := am a; ahi := ahi a; azf := azf a;
      an := an a; askip := k; aend := aend a; aok := aok a |}.
 Definition a_setend (a : astate) (v : val) : astate :=
-  {| ar := ar a; ax := ax a; am := am a; ahi := ahi a; azf := azf a;
+  {| ar := ar a; ax := ax a; au := au a; am := am a; ahi := ahi a; azf := azf a;
      an := an a; askip := askip a; aend := Some v; aok := aok a |}.
 Definition a_fail (a : astate) : astate :=
-  {| ar := ar a; ax := ax a; am := am a; ahi := ahi a; azf := azf a;
+  {| ar := ar a; ax := ax a; au := au a; am := am a; ahi := ahi a; azf := azf a;
      an := an a; askip := askip a; aend := aend a; aok := false |}.
 
 Fixpoint lookup (m : list (Z * val)) (o : Z) : option val :=
@@ -267,7 +276,7 @@ Definition a_call (P : params) (f : string) (a : astate) : astate :=
       let n := an a in
       let m1 := filter (fun e => p <=? fst e) (am a) in
       let mk m := {| ar := fun r => if callee_saved r then ar a r else VHav n r;
-                     ax := a_call_xmm f n (ax a); am := m;
+                     ax := a_call_xmm f n (ax a); au := (au a && (xmm_leaf f || xmm_wrapped f))%bool; am := m;
                      ahi := Some (match ahi a with None => p | Some h => Z.max h p end);
                      azf := None; an := S n; askip := askip a; aend := aend a; aok := aok a |} in
       if may_write f then
@@ -379,7 +388,7 @@ Definition aexec (P : params) (prog : list insn) (a : astate) : astate := fold_l
 
 Definition ainit : astate :=
   {| ar := fun r => if reg_eqb r RSP then VPtr 0 else VInit r;
-     ax := fun x => (VXlo x, VXhi x); am := []; ahi := None; azf := None; an := 0%nat;
+     ax := fun x => (VXlo x, VXhi x); au := true; am := []; ahi := None; azf := None; an := 0%nat;
      askip := None; aend := None; aok := true |}.
 
 (* ------------------------------------------------------------------ what a stub must guarantee *)
@@ -400,6 +409,7 @@ Definition check_final (P : params) (sp : spec) (a : astate) : bool :=
   && forallb (fun r => val_eqb (ar a r) (VInit r)) (s_pres sp)
   && val_eqb (ar a RSP) (VPtr (s_rsp sp))
   && forallb (fun x => val_eqb (fst (ax a x)) (VXlo x) && val_eqb (snd (ax a x)) (VXhi x)) xmm_regs
+  && au a
   && forallb (fun e => (fst e <? s_memfrom sp) || existsb (Z.eqb (fst e)) (s_allowed sp)) (am a)
   && match ahi a with None => true | Some h => h <=? s_memfrom sp end
   && match p_ext P with Some _ => 8 <=? s_memfrom sp | None => true end.
@@ -446,17 +456,18 @@ Definition spec_plt_direct : spec :=
 
 (* ------------------------------------------------------------------ the guarantee, concretely *)
 (* What [spec] promises about EVERY concrete run of a stub from (regs, xmm, mem, zf) in world W:
-   no fault; control leaves to the stated target; the listed registers, rsp (shifted), xmm0-7 (the
-   argument/return registers) and every memory cell from rsp0 + s_memfrom upwards - except the hijacked slot(s) -
+   no fault; control leaves to the stated target; the listed registers, rsp (shifted), every architecturally
+   visible bit of vector registers 0-7 (xmm/ymm/zmm: the argument/return registers) and every memory cell from rsp0 + s_memfrom upwards - except the hijacked slot(s) -
    hold their entry values. *)
-Definition stub_guarantee (W : world) (regs : reg -> Z) (xmm : nat -> Z * Z) (mem : Z -> Z) (zf : bool)
+Definition stub_guarantee (W : world) (regs : reg -> Z) (xmm : nat -> Z * Z) (up : nat -> nat -> Z) (mem : Z -> Z) (zf : bool)
            (ext : option val) (sp : spec) (prog : list insn) : Prop :=
-  let c := cexec W prog (cstart regs xmm mem zf) in
+  let c := cexec W prog (cstart regs xmm up mem zf) in
   cfault c = false /\
   cend c = Some (den W regs xmm mem (s_target sp)) /\
   (forall r, In r (s_pres sp) -> cr c r = regs r) /\
   cr c RSP = regs RSP + s_rsp sp /\
   (forall x, (x < 8)%nat -> cx c x = xmm x) /\
+  (forall x i, (x < 8)%nat -> (2 <= i < visible (Nat.min (w_level W) 2))%nat -> cu c x i = up x i) /\
   (forall o, s_memfrom sp <= o -> ~ In o (s_allowed sp) ->
              (forall e, ext = Some e -> regs RSP + o <> den W regs xmm mem e) ->
              cm c (regs RSP + o) = mem (regs RSP + o)).
